@@ -8,7 +8,11 @@ wt=/tmp/vs/$id; mkdir -p /tmp/vs; rm -rf $wt
 git -C /repo worktree add -q --detach $wt HEAD || exit 2
 cd $wt
 demo_dir=$(python3 -c "import json;print(json.load(open('$src/meta.json')).get('demo_dir',''))")
-demo_cmd=$(python3 -c "import json;print(json.load(open('$src/meta.json')).get('demo_cmd',''))")
+demo_cmd=$(python3 -c "
+import json,re
+c=json.load(open('$src/meta.json')).get('demo_cmd','')
+c=re.sub(r'\s\s+\([^()]*\)\s*\$','',c,flags=re.S); c=re.sub(r'\s+\((after|env|note|with)\b.*\)\s*\$','',c,flags=re.S)   # drop a trailing explanatory parenthesis
+print(c)")
 res() { python3 - "$@" <<'PY'
 import json,sys
 keys=sys.argv[2::2]; vals=sys.argv[3::2]
